@@ -71,7 +71,15 @@ def run_rules(pid, overrides):
         import sa.interp as _ip
         del _ip.OPAQUE[:]
         del _ip.UNSUPPORTED[:]
-        mod.run(ctx, chk)
+        try:
+            mod.run(ctx, chk)
+        except AnalysisError as e:
+            import re
+            m = re.match(r"anchor function (\S+):(\S+) not found", str(e))
+            leaf = m.group(2).split(".")[-1] if m else ""
+            if not m or not leaf.startswith("_") or leaf.startswith("__"):
+                raise
+            chk.undecided("engine.anchor", f"{m.group(1)}:{m.group(2)}", "private helper vanished")
         rc = chk.finish(write=False)
     except AnalysisError as e:
         chk.error = str(e)
